@@ -54,4 +54,9 @@ def main(argv=None):
 
 
 if __name__ == "__main__":
-    sys.exit(main())
+    _code = main()
+    # leave without the interpreter's exit handlers: concurrent.futures joins its worker processes there, and a worker
+    # that never received its stop sentinel would block the exit for ever (seen once: all workers idle, parent in waitpid)
+    sys.stdout.flush()
+    sys.stderr.flush()
+    os._exit(int(_code or 0))
